@@ -253,7 +253,56 @@ def bridge_keys(c):
   return {'a': run(c['seed']), 'a_again': run(c['seed']), 'b': run(c['seed'] + 1)}
 
 
+def branch_draws():
+  """nn.cond / nn.switch whose branches draw different numbers of keys from one stream, followed by a draw after the transform, by the module
+  itself and by a sub-module created before the transform: the keys of the branch that ran and the key drawn afterwards are pairwise different"""
+  import itertools
+  import flax.linen as nn
+  kd = lambda k: jax.random.key_data(k)
+
+  def branch(n, n_out, draw):
+    def fn(mdl):
+      keys = [draw(mdl) for _ in range(n)]
+      return jnp.stack(keys + [jnp.zeros_like(keys[0])] * (n_out - n))
+    return fn
+
+  class Noise(nn.Module):
+    @nn.compact
+    def __call__(self):
+      return kd(self.make_rng('noise'))
+
+  class M(nn.Module):
+    draws: tuple
+    form: str
+    sub: bool
+
+    @nn.compact
+    def __call__(self, sel):
+      src = Noise(name='src') if self.sub else None
+      draw = (lambda mdl: src()) if self.sub else (lambda mdl: kd(mdl.make_rng('noise')))
+      n_out = max(self.draws)
+      fns = [branch(n, n_out, draw) for n in self.draws]
+      inb = nn.cond(sel, fns[0], fns[1], self) if self.form == 'cond' else nn.switch(sel, fns, self)
+      return inb, (src() if self.sub else kd(self.make_rng('noise')))
+  bad = []
+  for form, all_draws in (('cond', [(2, 1), (1, 2), (3, 1), (2, 2)]), ('switch', [(2, 1, 3), (1, 3, 1), (3, 2, 1)])):
+    for draws in all_draws:
+      for sub in (False, True):
+        for idx in range(len(draws)):
+          sel = jnp.asarray(idx == 0) if form == 'cond' else jnp.asarray(idx)
+          try:
+            (inb, after), _ = M(draws, form, sub).apply({}, sel, rngs={'noise': jax.random.key(7)}, mutable=True)
+            keys = [tuple(int(v) for v in np.asarray(r).ravel()) for r in np.asarray(inb)[:draws[idx]]] + [tuple(int(v) for v in np.asarray(after).ravel())]
+            if len(set(keys)) != len(keys):
+              bad.append({'form': form, 'draws': list(draws), 'sub_module': sub, 'branch': idx, 'keys': [list(k) for k in keys]})
+          except Exception as e:  # pylint: disable=broad-except
+            bad.append({'form': form, 'draws': list(draws), 'sub_module': sub, 'branch': idx, 'err': type(e).__name__, 'msg': str(e)[:160]})
+  return bad
+
+
 def main(payload):
+  if payload.get('branch_draws'):
+    return {'branch_draws': branch_draws()}
   if 'bridge_keys' in payload:
     out = []
     for c in payload['bridge_keys']:
